@@ -96,6 +96,8 @@ func Float(f float32) V {
 // FloatBits exposes the IEEE-754 bits of a float32.
 func FloatBits(f float32) uint32 { return math.Float32bits(f) }
 
+func FloatFromBits(b uint32) float32 { return math.Float32frombits(b) }
+
 func RunLength(c *rtcp.RunLengthChunk) V {
 	return V{"ct": "rl", "typ": int(c.Type), "sym": int(c.PacketStatusSymbol), "run": int(c.RunLength)}
 }
